@@ -238,7 +238,8 @@ def run_property(pid, tier, seed, replay=None):
                 d += run_stream(fam, cases, "generated")
                 if not d and not proof["ok"] and tier == "quick":
                     # a proof obligation broke: search harder for a concrete failing input
-                    n2 = P["n"]["thorough"].get(fam.NAME, 5 * n)
+                    # bounded: the quick tier must stay quick even when it has to look for a failing input
+                    n2 = min(P["n"]["thorough"].get(fam.NAME, 5 * n), 4 * n)
                     notes.append(f"proof broken: directed/extended search with {n2} more {fam.NAME} cases")
                     extra = fam.directed(rng, proof, pid) if hasattr(fam, "directed") else []
                     extra += fam.generate(rng, n2, "thorough", pid)
